@@ -1,10 +1,165 @@
-(* C03 - Kernel DHCP fast path answers exactly as the userspace server would. *)
+(* C03 - Kernel DHCP fast path answers exactly as the userspace server would.
+
+   Subject: Model/XdpDhcp.v - [xdp m now unow f] is bpf/dhcp_fastpath.c dhcp_fastpath_prog on raw map
+   bytes m, kernel clock now (ns) and frame f ([unow] is a ghost input, markers only); [cache_step] is
+   what the Go side (ebpf.Loader marshalling, PoolManager.AddPool, SetServerConfig, dhcp.Server
+   handleRequest / handleRelease / handleDecline / cleanupExpiredLeases) does to those maps.
+
+   Full statement, clause by clause (the monitor Model/XdpDhcpSpec.v checks the same clauses on the
+   real program's output against the real userspace server's reply):
+     A  a frame that is not answered is handed on unchanged with XDP_PASS          full
+     B  every transmitted reply is well formed and echoes the request                full ([tx_case])
+     C  ... carries the address userspace ACKed                                      REFUTED + partial
+     D  ... is OFFER for DISCOVER, ACK for REQUEST (type by TLV walk)                REFUTED + partial
+     E  ... an ACK confirms the address the REQUEST names                            REFUTED + partial
+     F  no reply once the lease is released / declined / swept after expiry          full
+     G  no reply for a lease that is expired on the userspace (Unix) clock           REFUTED + partial
+   Domain: frames shorter than 2^16 bytes (the program itself keeps the length in a __u16; an XDP
+   buffer is at most a page), byte values below 256. *)
 From Coq Require Import NArith List.
-From Verif Require Import Base.Word Model.XdpDhcp Model.XdpDhcpSpec Proofs.XdpDhcpProofs.
+From Verif Require Import Base.Word Base.Check Model.XdpDhcp Model.XdpDhcpSpec Model.XdpDhcpCheck Proofs.XdpDhcpProofs.
 Import ListNotations.
 Local Open Scope N_scope.
 
-Theorem C03_not_dhcp_passed_unchanged :
-  forall m now unow f, parse f = NotDhcp -> xdp m now unow f = Done XDP_PASS f [].
-Proof. exact notdhcp_pass. Qed.
-Print Assumptions C03_not_dhcp_passed_unchanged.
+(* ---- A: pass identity (clause 4 of the monitor) ---- *)
+Theorem C03_pass_identity :
+  forall m now unow f v r mk, wf_bytes f -> wf_maps m -> N.of_nat (length f) < 65536 ->
+    xdp m now unow f = Done v r mk -> v <> XDP_TX -> v = XDP_PASS /\ r = f.
+Proof. exact pass_identity. Qed.
+Print Assumptions C03_pass_identity.
+
+(* ---- B: every outcome of the program; [tx_case] = parse succeeded, type 1/3 at a scanned offset,
+        an unexpired (kernel clock) assignment with pool and config, and [tx_facts]: frame length,
+        ip.tot_len and udp.len equal to what is left of the frame, source port 67, header checksum valid
+        (one's-complement sum of the ten words = 0xFFFF, for every header content), BOOTREPLY, xid /
+        htype / hlen / chaddr / magic / VLAN tags untouched, yiaddr and siaddr from the maps, and the
+        options area exactly [opt_bytes] (53, 54, 51, 1, 3, [6], 58, 59, END) ---- *)
+Theorem C03_outcomes :
+  forall m now unow f v r mk, wf_bytes f -> wf_maps m -> N.of_nat (length f) < 65536 ->
+    xdp m now unow f = Done v r mk ->
+    (v = XDP_PASS /\ r = f /\ mk = []) \/ (v = XDP_TX /\ tx_case m now f r).
+Proof. exact xdp_result. Qed.
+Print Assumptions C03_outcomes.
+
+Theorem C03_ip_checksum_valid :
+  forall a0 a1 a2 a3 a4 a5 a6 a7 a8 a9 a12 a13 a14 a15 a16 a17 a18 a19,
+    let h := [a0; a1; a2; a3; a4; a5; a6; a7; a8; a9; 0; 0; a12; a13; a14; a15; a16; a17; a18; a19] in
+    wf_bytes h ->
+    let c := ip_checksum h in
+    ip_checksum_valid [a0; a1; a2; a3; a4; a5; a6; a7; a8; a9; c mod 256; (c / 256) mod 256;
+                       a12; a13; a14; a15; a16; a17; a18; a19] = true.
+Proof. exact checksum_valid_20. Qed.
+Print Assumptions C03_ip_checksum_valid.
+
+Theorem C03_reply_type_follows_scan :
+  forall rt pv sip, tlv_msg_type (opt_bytes rt pv sip) = rt.
+Proof. exact opt_bytes_type. Qed.
+Print Assumptions C03_reply_type_follows_scan.
+
+(* subnet mask: prefix_to_mask agrees with the CIDR mask for all 33 prefix lengths (finite domain) *)
+Definition cidr_mask (p : N) : bytes := be_bytes 4 (4294967296 - 2 ^ (32 - p)).
+Theorem C03_mask_all_prefixes :
+  forallb (fun p => bytes_eqb (prefix_to_mask p) (cidr_mask p)) (map N.of_nat (seq 0 33)) = true.
+Proof. vm_compute. reflexivity. Qed.
+Print Assumptions C03_mask_all_prefixes.
+
+(* ---- C: the address userspace ACKed ---- *)
+Theorem C03_yiaddr_is_byte_reversed :
+  forall m mac ip pool vlan class ex cid now unow f r mk p ch,
+    let m' := fst (cache_step m (GAck mac ip pool vlan class ex cid)) in
+    wf_bytes f -> wf_maps m' -> N.of_nat (length f) < 65536 ->
+    parse f = Parsed p -> p_tagged p = false -> extract_cid f (p_dhcp p + 240) = Some None ->
+    rd f (p_dhcp p + 28) 6 = Some ch -> rev ch ++ [0; 0] = go_mac_key mac ->
+    xdp m' now unow f = Done XDP_TX r mk -> rd r (p_dhcp p + 16) 4 = Some (go_ip ip).
+Proof. exact ack_reply_yiaddr. Qed.
+Print Assumptions C03_yiaddr_is_byte_reversed.
+
+Theorem C03_go_ip_reverses :
+  forall a b c d, a < 256 -> b < 256 -> c < 256 -> d < 256 -> go_ip [a; b; c; d] = [d; c; b; a].
+Proof. exact go_ip_rev. Qed.
+Print Assumptions C03_go_ip_reverses.
+
+Theorem C03_yiaddr_agrees_refuted : ~ yiaddr_agrees.
+Proof. exact yiaddr_agrees_refuted. Qed.
+Print Assumptions C03_yiaddr_agrees_refuted.
+
+Theorem C03_yiaddr_agrees_partial :
+  forall m mac a b c d pool vlan class ex cid now unow f r mk p ch,
+    let ip := [a; b; c; d] in
+    let m' := fst (cache_step m (GAck mac ip pool vlan class ex cid)) in
+    a < 256 -> b < 256 -> c < 256 -> d < 256 -> rev ip = ip ->
+    wf_bytes f -> wf_maps m' -> N.of_nat (length f) < 65536 ->
+    parse f = Parsed p -> p_tagged p = false -> extract_cid f (p_dhcp p + 240) = Some None ->
+    rd f (p_dhcp p + 28) 6 = Some ch -> rev ch ++ [0; 0] = go_mac_key mac ->
+    xdp m' now unow f = Done XDP_TX r mk -> rd r (p_dhcp p + 16) 4 = Some ip.
+Proof. exact yiaddr_agrees_partial. Qed.
+Print Assumptions C03_yiaddr_agrees_partial.
+
+(* ---- D: reply type ---- *)
+Theorem C03_type_agrees_refuted : ~ type_agrees.
+Proof. exact type_agrees_refuted. Qed.
+Print Assumptions C03_type_agrees_refuted.
+
+Theorem C03_type_agrees_partial :
+  forall m now unow f p r mk, wf_bytes f -> wf_maps m -> N.of_nat (length f) < 65536 ->
+    parse f = Parsed p -> get_msg_type f (p_dhcp p + 240) = Some (tlv_msg_type (skipn (p_dhcp p + 240) f)) ->
+    xdp m now unow f = Done XDP_TX r mk ->
+    let tq := tlv_msg_type (skipn (p_dhcp p + 240) f) in
+    let tr := tlv_msg_type (skipn (p_dhcp p + 240) r) in
+    (tq = 1 /\ tr = 2) \/ (tq = 3 /\ tr = 5).
+Proof. exact type_agrees_partial. Qed.
+Print Assumptions C03_type_agrees_partial.
+
+(* ---- E: REQUEST for another address ---- *)
+Theorem C03_request_confirmed_refuted : ~ request_confirmed.
+Proof. exact request_confirmed_refuted. Qed.
+Print Assumptions C03_request_confirmed_refuted.
+
+Theorem C03_request_confirmed_partial :
+  forall m now unow f p a asg r mk, wf_bytes f -> wf_maps m -> N.of_nat (length f) < 65536 ->
+    parse f = Parsed p -> find_assignment m f p = Some (Some asg) -> rd asg 4 4 = Some a ->
+    xdp m now unow f = Done XDP_TX r mk -> rd r (p_dhcp p + 16) 4 = Some a.
+Proof. exact request_confirmed_partial. Qed.
+Print Assumptions C03_request_confirmed_partial.
+
+(* ---- F: released / declined / swept ---- *)
+Theorem C03_gone_not_answered :
+  forall m mac cid e now unow f p,
+    e = GRelease mac cid \/ e = GDecline mac cid \/ e = GExpire mac cid ->
+    parse f = Parsed p -> p_tagged p = false ->
+    rd f (p_dhcp p + 28) 6 = Some (rev (firstn 6 (go_mac_key mac))) -> skipn 6 (go_mac_key mac) = [0; 0] ->
+    (extract_cid f (p_dhcp p + 240) = Some None \/
+     (cid <> [] /\ extract_cid f (p_dhcp p + 240) = Some (Some (go_cid_key cid)))) ->
+    forall v r mk, xdp (fst (cache_step m e)) now unow f = Done v r mk -> v = XDP_PASS /\ r = f.
+Proof. exact gone_not_answered. Qed.
+Print Assumptions C03_gone_not_answered.
+
+(* ---- G: expiry ---- *)
+Theorem C03_expired_silent_refuted : ~ expired_silent.
+Proof. exact expired_silent_refuted. Qed.
+Print Assumptions C03_expired_silent_refuted.
+
+Theorem C03_expired_silent_partial :
+  forall m now unow f p asg ex v r mk, wf_bytes f -> wf_maps m -> N.of_nat (length f) < 65536 ->
+    now / NS_PER_S = unow ->
+    parse f = Parsed p -> find_assignment m f p = Some (Some asg) -> rd asg 13 8 = Some ex -> le_val ex < unow ->
+    xdp m now unow f = Done v r mk -> v <> XDP_TX.
+Proof. exact expired_silent_partial. Qed.
+Print Assumptions C03_expired_silent_partial.
+
+(* ---- the recorded witnesses: Model = kernel program on each, monitor rejection and marker ---- *)
+Theorem C03_witness_rows :
+  run_cases [wit_k03a; wit_k03c; wit_k03f; wit_k03g; wit_k03h] =
+  [[1; 0; 4; 4; 4; 4; 301]; [2; 0; 6; 6; 6; 6; 304]; [3; 0; 5; 3; 5; 3; 307]; [4; 0; 5; 2; 5; 2; 308]; [5; 0; 4; 4; 4; 4; 309]].
+Proof. exact wit_rows. Qed.
+Print Assumptions C03_witness_rows.
+
+(* ---- non-vacuity: the hypotheses of the implications are met by a recorded run ---- *)
+Example C03_tx_exists :
+  exists r mk, xdp (wmaps wit_k03f) (wnow wit_k03f) (wunow wit_k03f) (wframe wit_k03f) = Done XDP_TX r mk.
+Proof. eexists. eexists. vm_compute. reflexivity. Qed.
+Example C03_palindrome_exists : rev [10; 0; 0; 10] = [10; 0; 0; 10].
+Proof. reflexivity. Qed.
+Example C03_gone_hypotheses_met :
+  skipn 6 (go_mac_key [2; 0; 94; 16; 0; 17]) = [0; 0] /\ rev (firstn 6 (go_mac_key [2; 0; 94; 16; 0; 17])) = [2; 0; 94; 16; 0; 17].
+Proof. vm_compute. split; reflexivity. Qed.
